@@ -114,7 +114,7 @@ def main():
           for p in PROPS if p not in CHECKS]
     man = {
         "version": 1,
-        "setup_cmd": "/venv/bin/python -m compileall -q harness tools && /venv/bin/python -c 'import conductor' && tla-sany specs/RunObs_Trace.tla >/dev/null",
+        "setup_cmd": "/venv/bin/python -m compileall -q harness tools && /venv/bin/python -c 'import conductor' && (cd specs && tla-sany RunObs_Trace.tla >/dev/null && tla-sany StoreObs_Trace.tla >/dev/null)",
         "hooks": {
             "guard": "CONDUCTOR_VERIF",
             "enable": "no hooks: every observation is taken by interposition inside the harness process (DESIGN.md section 8)",
